@@ -163,7 +163,7 @@ def sweep(rep, opname, phases, full):
                     rep.violation(f"sequence/repeated-within/{opname}", f"{opname} at counter phase {p}: consecutive messages carry count {a} (counts of the operation: {seqs[:8]})", {"op": opname, "phase": p})
         if not good:
             rep.violation(f"sequence/operation-failed/{opname}", f"{opname} at counter phase {p} failed: {out!r:.120} (counts {seqs[:6]})", {"op": opname, "phase": p})
-        rep.case((opname, p), outcome="ok" if good else "failed", calls=max(1, len(seqs)))
+        rep.case((opname, p), outcome=(f"ok:{opname}:{len(seqs)}-counts") if good else "failed", calls=max(1, len(seqs)))
     for tag, detail in t.events[n_ev:]:
         if tag.startswith("C17"):
             rep.violation(f"sequence/duplicate-detected/{opname}", f"{opname}: {detail}", {"op": opname, "phase": None})
